@@ -352,6 +352,7 @@ def block(tensors, common_legs=None) -> Tensor:
     tensors = {k: v.consume_transpose() for k, v in tensors.items()}
     tn0 = next(iter(tensors.values()))  # first tensor; used to initialize new objects and retrieve common values
     out_s, = ((),) if common_legs is None else _clear_axes(common_legs)
+    out_s = tuple(ii % tn0.ndim for ii in out_s)
     out_b = tuple(ii for ii in range(tn0.ndim) if ii not in out_s)
 
     pos = list(_clear_axes(*tensors))
